@@ -41,6 +41,8 @@ def plan(tier, seed):
         cases.append({"kind": "gen", "seed": seed, "batch": b, "n": 3})
     for k in range(10 if tier == "quick" else 150):
         cases.append({"kind": "twin", "seed": seed, "k": k})
+    for k in range(12 if tier == "quick" else 150):
+        cases.append({"kind": "multisite", "seed": seed, "k": k})
     for k in range(8 if tier == "quick" else 120):
         cases.append({"kind": "shipped", "seed": seed, "k": k, "gene": SHIPPED[k % len(SHIPPED)]})
     return cases
@@ -381,6 +383,47 @@ def run(case):
                 fps.append(util.fingerprint(desc))
                 if res.sample is None and case["batch"] < 3:
                     res.sample = desc
+    elif case["kind"] == "multisite":
+        # a site with two catalogued variants (second alternative base, or an insertion on a substitution's
+        # position): one copy carries one of them, another copy is reference (or carries the other one) there
+        rng = util.rng_for("c01m", case["seed"], case["k"])
+        genome = rng.choice(["hg19", "hg38"])
+        found = None
+        for dbseed in rng.sample(range(60), 60):
+            db = _sim.gen_db(dbseed, genome, pseudogene=None, want_cn=False, hostile=1.0)
+            g_ = db.gene
+            bypos = collections.defaultdict(list)
+            for (p_, o_) in g_.mutations:
+                bypos[p_].append(o_)
+            multi = [p_ for p_, ops in bypos.items() if len(ops) > 1]
+            owners = []
+            for c in tables.all_copies(g_):
+                if g_.alleles[c[0]].cn_config != "1":
+                    continue
+                vs = tables.allele_variants(g_, *c)
+                if any(m.pos in multi for m in vs) and all(
+                        not ("ins" in m.op[3:] and m.op.startswith("del")) and not (">" in m.op and len(m.op) > 3)
+                        for m in vs):
+                    owners.append(c)
+            if owners:
+                found = (db, owners, set(multi))
+                break
+        if not found:
+            res.count("skipped_no_multi_variant_site")
+        else:
+            db, owners, multi = found
+            first = rng.choice(owners)
+            others = [c for c in owners if c != first and {m.pos for m in tables.allele_variants(db.gene, *c)} & multi]
+            second = rng.choice(others) if others and rng.random() < 0.4 else db.reference_copy()
+            copies = [first, second] + ([db.reference_copy()] if False else [])
+            rl, depth = rng.choice([100, 150]), rng.choice([20, 30])
+            desc = {"db": db.label, "strand": db.gene.strand, "planted": [list(c) for c in copies],
+                    "read_length": rl, "depth": depth, "multi_variant_sites": sorted(multi)[:4]}
+            decided = check_sample(res, db, copies, rl, depth, desc)
+            res.count("samples")
+            res.count("multisite_samples")
+            if decided:
+                fps.append(util.fingerprint(desc))
     elif case["kind"] == "twin":
         # an allele with the same inserted bases at two sites 18-45 bases apart (reads span both), heterozygous
         # with a reference copy or homozygous
